@@ -588,6 +588,10 @@ func (x *Exec) assignLoc(st *State, ec *EvalCtx, lhs *Expr, v SVal) {
 func (x *Exec) havocLoc(st *State, loc EV, hint string) {
 	tb := x.tb
 	switch v := loc.V.(type) {
+	case *MapV:
+		// the whole map: every value cell, every presence bit
+		x.havocLoc(st, EV{V: &PtrV{IsNil: tb.False(), Obj: v.Obj, Elem: v.Elem}}, hint)
+		return
 	case *SliceV:
 		if v.Obj.Dummy {
 			return
@@ -623,6 +627,9 @@ func (x *Exec) havocLoc(st *State, loc EV, hint string) {
 				leaves, _ := leafPaths(o.Elem)
 				for _, l := range leaves {
 					n.Leaves[l.Key] = x.ContentBase("hv."+shortKey(hint)+l.Key, l.Sort)
+				}
+				if _, isMap := os.Leaves["#present"]; isMap {
+					n.Leaves["#present"] = x.ContentBase("hv."+shortKey(hint)+"#present", SBool)
 				}
 				st.mem[o] = n
 				for _, no := range o.Nested {
@@ -734,6 +741,12 @@ func (x *Exec) nameLookupSkip(fr *Frame, st *State, b *ssa.BasicBlock, skip int)
 				case *ssa.DebugRef:
 					if ins.Object() != nil && ins.Object().Name() == name {
 						v, ok := fr.env[ins.X]
+						if cv, isC := ins.X.(*ssa.Const); isC && cv.IsNil() && !ok {
+							// "var m map[..]" style reference to the nil constant: keep looking for the reference to the real value
+							if _, isMap := cv.Type().Underlying().(*types.Map); isMap {
+								continue
+							}
+						}
 						if !ok {
 							if cv, isC := ins.X.(*ssa.Const); isC {
 								v, ok = x.constVal(cv), true
@@ -762,6 +775,26 @@ func (x *Exec) nameLookupSkip(fr *Frame, st *State, b *ssa.BasicBlock, skip int)
 							return EV{V: x.load(st, pv, pv.Elem), T: pv.Elem}, true
 						}
 					}
+				}
+			}
+		}
+		// fallback: a reference to the variable in a block that does not dominate this one, to a value whose definition
+		// does (the variable is not loop-carried here, otherwise a phi of this block would have matched above)
+		for _, blk := range fr.fn.Blocks {
+			for _, in := range blk.Instrs {
+				dr, ok := in.(*ssa.DebugRef)
+				if !ok || dr.Object() == nil || dr.Object().Name() != name || dr.IsAddr {
+					continue
+				}
+				def, isInstr := dr.X.(ssa.Instruction)
+				if !isInstr || def.Block() == nil || !(def.Block() == b || def.Block().Dominates(b)) {
+					continue
+				}
+				if _, isPhi := dr.X.(*ssa.Phi); isPhi {
+					continue
+				}
+				if v, has := fr.env[dr.X]; has {
+					return EV{V: v, T: dr.X.Type()}, true
 				}
 			}
 		}
@@ -894,7 +927,7 @@ func (x *Exec) havocLoopMem(fr *Frame, b *ssa.BasicBlock, ord int, lc *LoopContr
 				ec := x.loopCtx(fr, b, st, false)
 				v := ec.Eval(me)
 				switch v.V.(type) {
-				case *SliceV, *PtrV:
+				case *SliceV, *PtrV, *MapV:
 					x.havocLoc(st, v, fmt.Sprintf("L%d", ord))
 				default:
 					x.havocLoc(st, EV{V: ec.evalLoc(me)}, fmt.Sprintf("L%d", ord))
@@ -1126,6 +1159,11 @@ func (x *Exec) builtin(fr *Frame, st *State, b *ssa.Builtin, cc *ssa.CallCommon,
 		case *PtrV:
 			at := v.Elem.Underlying().(*types.Array)
 			k(st, tb.BVi(64, at.Len()))
+		case *MapV:
+			n := tb.Fresh("maplen", BV(64))
+			st.Assume(tb.BVCmp("bvsle", tb.BVi(64, 0), n))
+			st.Assume(tb.BVCmp("bvsle", n, tb.BVi(64, 1<<20)))
+			k(st, n)
 		case *OpaqueV:
 			k(st, tb.Fresh("maplen", BV(64)))
 		default:
@@ -1406,6 +1444,12 @@ func (x *Exec) builtinModel(fr *Frame, st *State, fn *ssa.Function, name string,
 		return true
 	case "fmt.Sprintf", "fmt.Sprint":
 		model()
+		if name == "fmt.Sprintf" && len(args) == 2 {
+			if r, ok := x.sprintfModel(st, args[0], args[1]); ok {
+				k(st, r)
+				return true
+			}
+		}
 		k(st, tb.Fresh("sprintf", SInt))
 		return true
 	case "log.Printf", "log.Println", "log.Print":
@@ -1827,4 +1871,50 @@ func (x *Exec) ifaceContract(key string) *Contract {
 		return c
 	}
 	return nil
+}
+
+
+// sprintfModel: fmt.Sprintf with a constant format and up to four value arguments (strings, integers, booleans) is a
+// FUNCTION of the format and the arguments (uninterpreted).  For the one format the repository uses as a map key,
+// "%v_%v_%v" over (string, uint8, bool), injectivity is assumed as well (the last two segments contain no '_', so the
+// three arguments can be read back from the result): listed among the assumptions.
+func (x *Exec) sprintfModel(st *State, format SVal, va SVal) (*Term, bool) {
+	tb := x.tb
+	ft, ok := format.(*Term)
+	sv, ok2 := va.(*SliceV)
+	if !ok || !ok2 || !sv.Len.IsConst() || sv.Obj.Dummy {
+		return nil, false
+	}
+	n := int(sv.Len.val.Int64())
+	if n < 1 || n > 4 {
+		return nil, false
+	}
+	argSorts := []Sort{SInt}
+	argTerms := []*Term{ft}
+	var ivs []*IfaceV
+	for i := 0; i < n; i++ {
+		ev := x.readElem(st, sv.Obj, tb.BVBin("bvadd", sv.Off, tb.BVi(64, int64(i))), nil, sv.Elem)
+		iv, isI := ev.(*IfaceV)
+		if !isI {
+			return nil, false
+		}
+		bits, str := x.ifaceBits(iv)
+		argSorts = append(argSorts, SInt, BV(64), SInt)
+		argTerms = append(argTerms, iv.Tag, bits, str)
+		ivs = append(ivs, iv)
+	}
+	f := tb.DeclareFun(fmt.Sprintf("fmt.sprintf%d", n), argSorts, SInt)
+	res := tb.App(f, argTerms...)
+	x.assumeQ(st, tb.mk(">=", SBool, nil, "", res, tb.Intc(0)))
+	if ft.IsConst() && n == 3 && ft == x.strConst("%v_%v_%v") {
+		x.builtinModels["fmt.Sprintf(\"%v_%v_%v\", string, uint8, bool) is injective (its arguments can be read back from the result)"] = true
+		for i := 0; i < 3; i++ {
+			invB := tb.DeclareFun(fmt.Sprintf("fmt.sprintf3.argbits%d", i), []Sort{SInt}, BV(64))
+			invS := tb.DeclareFun(fmt.Sprintf("fmt.sprintf3.argstr%d", i), []Sort{SInt}, SInt)
+			bits, str := x.ifaceBits(ivs[i])
+			x.assumeQ(st, tb.Eq(tb.App(invB, res), bits))
+			x.assumeQ(st, tb.Eq(tb.App(invS, res), str))
+		}
+	}
+	return res, true
 }
